@@ -3063,10 +3063,15 @@ def ob_evaluate_collect_all(ctx, n_routes, n_jobs, fold_jobs):
                 job = deref_all(self.field(deref_all(args[1]), 'evaluators::EvaluationContext', 'job'))
                 r = [i for i, x in enumerate(self.routes) if x is route]
                 j = [i for i, x in enumerate(self.jobs) if x is job]
-                if len(r) != 1 or len(j) != 1:
-                    raise Inconclusive('cannot identify the (route, job) pair of a fold step')
-                self.pairs.append((r[0], j[0]))
-                c = z3.Int(f'cost_r{r[0]}_j{j[0]}')
+                if len(j) != 1:
+                    raise Inconclusive('cannot identify the job of a fold step')
+                if len(r) != 1:
+                    # a tour that was NOT handed over in `routes` (e.g. taken from the solution instead): noted, cost symbol of its own
+                    self.pairs.append((-1, j[0]))
+                    r = [-1]
+                else:
+                    self.pairs.append((r[0], j[0]))
+                c = z3.Int(f'cost_r{r[0]}_j{j[0]}' if r[0] >= 0 else f'cost_foreign_j{j[0]}')
                 st.assumed.append(z3.And(c >= 0, c <= 2 ** 20))
                 if alt.variant() == 1:
                     return success(self, FV(False, c))
@@ -3084,9 +3089,11 @@ def ob_evaluate_collect_all(ctx, n_routes, n_jobs, fold_jobs):
         problem = Agg('struct', [Opaque(f) if f != 'goal' else ArcV(Cell(Opaque('goal'))) for f in po], 'domain::Problem')
         so = ctx.layout.fields('context::SolutionContext')
         sol = Agg('struct', [Opaque(f) for f in so], 'context::SolutionContext')
-        n_req = (n_routes + 1) if fold_jobs else 0
+        # the caller hands over the tours of the solution PLUS fresh ones from the registry: the solution itself has one tour less
+        n_sol = max(n_routes - 1, 1)
+        n_req = (n_sol + 1) if fold_jobs else 0
         sol.fields[so.index('required')] = VecV([Opaque(f'required{i}') for i in range(n_req)])
-        sol.fields[so.index('routes')] = VecV([Opaque(f'sroute{i}') for i in range(n_routes)])
+        sol.fields[so.index('routes')] = VecV([Opaque(f'sroute{i}') for i in range(n_sol)])
         ictx = env.struct('context::InsertionContext', problem=ArcV(Cell(problem)), solution=sol, environment=Opaque('environment'))
         evaluator = env.struct('selectors::PositionInsertionEvaluator', insertion_position=EnumV('evaluators::InsertionPosition', 0, {}))
         jobs = VecV([RefV(Cell(Opaque(f'job{i}')), 0) for i in range(n_jobs)])
@@ -3110,7 +3117,10 @@ def ob_evaluate_collect_all(ctx, n_routes, n_jobs, fold_jobs):
                 break
             continue
         if sorted(st.user_pairs) != all_pairs:
-            res.status, res.detail = 'inconclusive', f'{name}: pairs evaluated {sorted(st.user_pairs)} != all pairs (structural; no replay)'
+            res.status = 'violated'
+            res.detail = f'{name}: the (route, job) pairs evaluated are {sorted(st.user_pairs)} (-1 = a tour that was not handed over), not every pair of the given routes and jobs once'
+            res.counterexample = {'what': res.detail}
+            res.case = {'kind': 'collect_all', 'routes': n_routes, 'jobs': n_jobs, 'fold_jobs': fold_jobs}
             break
         items = out.items
         groups = [[(r, j) for r in range(n_routes)] for j in range(n_jobs)] if fold_jobs else [[(r, j) for j in range(n_jobs)] for r in range(n_routes)]
